@@ -65,11 +65,11 @@
      normalize_m_spec.  It is needed there for the failure exits (normalize_m_insane_refuted uses FailOnce);
      whether the NoFault statement holds without it is not settled here.
    Still not proved:
-   - that make-owner / normalisation under NoFault releases NOTHING (incl (live_ids s) (live_ids s')): the
-     theorems say that the result's blocks are live and that no block outside the object moved, not that the
-     nodes / address blocks the input held are the very ones the result holds;
    - C12_normalize_borrowed without "a borrowed object records no text block" (text_blocks m = [] in mwf);
-     for make-owner that hypothesis is dropped in C12_make_owner_any_blocks. *)
+     for make-owner that hypothesis is dropped in C12_make_owner_any_blocks.
+   Not a theorem because it is false: "normalisation releases nothing".  It releases the list nodes (and, for
+   an owned object, the text blocks) of the dot segments it removes (C12_normalize_releases_nodes); make-owner
+   does release nothing (C12_make_owner_releases_nothing). *)
 From Coq Require Import List NArith Bool.
 From UP Require Import Base.Chars Model.Uri Model.Parse Model.Normalize Model.Resolve Model.Shorten Model.Recompose
   Model.Mem Model.ParseM Model.OpsM Proofs.OwnershipProofs.
@@ -402,3 +402,24 @@ Theorem C12_make_owner_any_blocks : forall csize m s, nofault s -> mwf_host m ->
     /\ mwf m' /\ fresh_blocks s s' m' /\ nofault s'.
 Proof. exact make_owner_any_blocks. Qed.
 Print Assumptions C12_make_owner_any_blocks.
+
+(* ---- what is released ------------------------------------------------------------------------------- *)
+(* a successful make-owner of a borrowed object releases nothing (any plan): every block that was live is
+   still live, and the result holds every node and address block the input held *)
+Theorem C12_make_owner_releases_nothing : forall csize m s m' s', wf s -> owns m s -> m_owner m = false ->
+  make_owner_m csize m s = (URI_SUCCESS, m', s') ->
+  incl (muri_blocks m) (muri_blocks m') /\ incl (live_ids s) (live_ids s').
+Proof. exact make_owner_releases_nothing. Qed.
+Print Assumptions C12_make_owner_releases_nothing.
+
+(* normalisation does release blocks of its own object: "a/./b" loses the node (block 1) of the "." segment,
+   and the copy (block 4) it had made of that segment's text *)
+Example C12_normalize_releases_nodes :
+  match parse_m [97; 47; 46; 47; 98] (ms_init NoFault) with
+  | (MOk m, s1) =>
+    let '(rc, m', s2) := normalize_m 1 63 m s1 in
+    rc = URI_SUCCESS /\ muri_blocks m = [0; 1; 2]%nat /\ live_ids s1 = [2; 1; 0]%nat
+    /\ muri_blocks m' = [0; 3; 2; 5]%nat /\ live_ids s2 = [5; 3; 2; 0]%nat
+  | _ => False
+  end.
+Proof. vm_compute. repeat split. Qed.
